@@ -398,7 +398,7 @@ impl<T: Clone + Default> ColumnData<T> {
         (*old(self)) is Dense ==> (*final(self)) is Dense && (*final(self))->base == new_base
             && (*final(self))->values@.len() == new_span && (*final(self))->count == (*old(self))->count,   //#dense_at_new_base
         (*old(self)) is Sparse ==> *final(self) == *old(self),                          //#sparse_untouched
-//@before "for slot in 0..values.len()"
+//@beforeloop 1
         proof { lemma_zero_words_no_bits(next_present@); }
         let ghost vals0 = values@;
         let ghost pres0 = present@;
@@ -457,7 +457,7 @@ impl<T: Clone + Default> ColumnData<T> {
         final(self).wf(),                                                               //#keeps_wf
         forall|j: usize| #[trigger] final(self).at(j) == old(self).at(j),               //#view_unchanged
         (*final(self)) is Sparse,                                                       //#is_sparse
-//@before "for slot in 0..values.len()"
+//@beforeloop 1
         let ghost vals0 = values@;
         let ghost pres0 = present@;
         let ghost base0 = *base;
@@ -494,7 +494,7 @@ impl<T: Clone + Default> ColumnData<T> {
             assert(m@.contains_key(min) && m@.contains_key(max));
         }
         let ghost m0 = m@;
-//@before "for (idx__r, value) in mi"
+//@beforeloop 1
         proof {
             lemma_zero_words_no_bits(present@);
             lemma_count_zero(present@, span as int);
